@@ -267,3 +267,70 @@ def snell_path(rng, numinterfaces, tilt=True, max_inc_deg=70.0, modes=None, extr
         return None
     legs = [float(np.linalg.norm(pts[k + 1] - pts[k])) for k in range(n - 1)]
     return path, dict(points=pts, thetas_in=thetas, legs=legs, vels=vels, modes=md, couplant=couplant, block=block, tilts=tilts)
+
+
+def immersion_exact(rng, max_reflections=1, numel=None, numscat=None, tilt=True):
+    """A block-in-immersion set-up (flat parallel front and back walls) whose wall point sets are
+    exactly the Snell crossing points of every (element, path, scatterer) ray, so that the discrete
+    Fermat rays found by arim obey Snell's law to rounding. Returns a dict with probe, views (ray
+    traced), examination object, scatterer points, materials."""
+    import itertools
+
+    import arim
+    import arim.geometry as g
+    import arim.models.block_in_immersion as bim
+    import arim.ray
+    from scipy.optimize import brentq
+
+    couplant = arim.Material(float(rng.uniform(1300, 1600)), density=float(rng.uniform(900, 1100)), state_of_matter="liquid",
+                             longitudinal_att=arim.material_attenuation_factory("constant", float(rng.uniform(0, 5))))
+    cl = float(rng.uniform(5000, 6500))
+    block = arim.Material(cl, float(cl * rng.uniform(0.48, 0.6)), density=float(rng.uniform(2500, 8000)), state_of_matter="solid",
+                          longitudinal_att=arim.material_attenuation_factory("polynomial", [float(rng.uniform(0, 10)), float(rng.uniform(0, 2))]),
+                          transverse_att=arim.material_attenuation_factory("constant", float(rng.uniform(0, 30))))
+    numel = numel or int(rng.integers(2, 5))
+    probe = arim.Probe.make_matrix_probe(numel, float(rng.uniform(0.6e-3, 1.2e-3)), 1, np.nan, 5e6)
+    probe.set_reference_element("first")
+    probe.translate_to_point_O()
+    if tilt:
+        probe.rotate(g.rotation_matrix_y(float(rng.uniform(-0.25, 0.25))))
+    probe.translate([float(rng.uniform(-5e-3, 5e-3)), 0.0, -float(rng.uniform(8e-3, 25e-3))])
+    H = float(rng.uniform(15e-3, 30e-3))
+    numscat = numscat or int(rng.integers(1, 4))
+    scat_pts = np.zeros((numscat, 3))
+    scat_pts[:, 0] = rng.uniform(-8e-3, 8e-3, size=numscat)
+    scat_pts[:, 2] = rng.uniform(0.25 * H, 0.75 * H, size=numscat)
+    words = ["".join(w) for k in range(1, max_reflections + 2) for w in itertools.product("LT", repeat=k)]
+    vel = {"L": block.longitudinal_vel, "T": block.transverse_vel}
+    front_x, back_x = [], []
+    for e in range(numel):
+        xe, ze = probe.locations.x[e], probe.locations.z[e]
+        for sp in scat_pts:
+            for w in words:
+                hs = [abs(ze)] + {1: [sp[2]], 2: [H, H - sp[2]], 3: [H, H, sp[2]]}[len(w)]
+                vs = [couplant.longitudinal_vel] + [vel[c] for c in w]
+                dx = sp[0] - xe
+                pmax = 1.0 / max(vs)
+
+                def X(p):
+                    return sum(h * p * v / np.sqrt(1 - (p * v) ** 2) for h, v in zip(hs, vs)) - dx
+                p = brentq(X, -pmax * (1 - 1e-12), pmax * (1 - 1e-12), xtol=1e-30, rtol=1e-15, maxiter=500)
+                xs = xe + np.cumsum([h * p * v / np.sqrt(1 - (p * v) ** 2) for h, v in zip(hs, vs)])
+                front_x.append(xs[0])
+                if len(w) >= 2:
+                    back_x.append(xs[1])
+                if len(w) == 3:
+                    front_x.append(xs[2])
+    def wall(xs, z, name):
+        xs = np.unique(np.concatenate([np.asarray(xs), [min(xs) - 3e-3, max(xs) + 3e-3]])) if len(xs) else np.array([-20e-3, 20e-3])
+        pts = np.zeros((len(xs), 3))
+        pts[:, 0], pts[:, 2] = xs, z
+        P = g.Points(pts, name)
+        return g.OrientedPoints(P, g.default_orientations(P))
+    front = wall(front_x, 0.0, "Frontwall")
+    back = wall(back_x, H, "Backwall")
+    exo = arim.BlockInImmersion(block, couplant, front, back)
+    scat_op = g.default_oriented_points(g.Points(scat_pts, "Scatterers"))
+    views = bim.make_views(exo, probe.to_oriented_points(), scat_op, max_number_of_reflection=max_reflections, tfm_unique_only=False)
+    arim.ray.ray_tracing(views.values(), convert_to_fortran_order=True)
+    return dict(probe=probe, views=views, exo=exo, scat_pts=scat_pts, couplant=couplant, block=block, H=H, numel=numel)
